@@ -331,7 +331,7 @@ PROPS['C09'] = dict(
         O('C09.metric_information', 'harness.c09_wire', 'metric_information', 90, 600, 'MetricInformation incl. safety config', env=_SYM),
         O('C09.trial', 'harness.c09_wire', 'trial_roundtrip', 300, 1500, 'Trial round trip for every status, all parameter kinds, creation/completion times', env=_SYMFF),
         O('C09.suggestion_and_delta', 'harness.c09_wire', 'suggestion_and_delta', 300, 900, 'SuggestDecision with TrialSuggestion + MetadataDelta', env=_SYMFF),
-        O('C09.study_config', 'harness.c09_wire', 'study_config_roundtrip', 300, 900, 'oss.StudyConfig incl. algorithm, noise, stopping spec, metadata', env=_SYMFF),
+        O('C09.study_config', 'harness.c09_wire', 'study_config_roundtrip', 600, 1500, 'oss.StudyConfig incl. algorithm, noise, stopping spec, metadata', env=_SYMFF),
     ])
 
 PROPS['C17'] = dict(
